@@ -1,4 +1,4 @@
 SPECIFICATION FairSpec
-CONSTANTS MaxThreads = 2 NC = 1 Jobs = 3 Ordered = TRUE MaxSpurious = 0 defaultInitValue = defaultInitValue
+CONSTANTS MaxThreads = 2 NC = 1 Jobs = 3 Ordered = TRUE MaxSpurious = 0 Mixed = FALSE defaultInitValue = defaultInitValue
 INVARIANTS ExactlyOnce NoDup InOrder Bounded
 PROPERTY Live
